@@ -31,17 +31,17 @@ CLASS("mako.runtime:Namespace",
 CLASS("mako.runtime:TemplateNamespace", bases=["Namespace"], fields={})
 CLASS("mako.runtime:ModuleNamespace", bases=["Namespace"], fields={"module": "Any"})
 
-ASSUME("mako.lookup:TemplateLookup.adjust_uri",
-       params={"self": "TemplateLookup", "uri": "Str", "relativeto": "Opt[Str]"}, returns="Str",
+ASSUME("mako.lookup:TemplateCollection.adjust_uri",
+       params={"self": "LookupAPI", "uri": "Str", "relativeto": "Opt[Str]"}, returns="Str",
        ensures=[("def", "result == adjusted_uri(uri, relativeto)")],
        raises={"IndexError": {"when": "len(uri) == 0"}},
-       note="verified separately (C07.uri.adjust); here only its value matters")
+       note="interface view used by the runtime; TemplateLookup.adjust_uri itself is verified (C07.uri.adjust)")
 
-ASSUME("mako.lookup:TemplateLookup.get_template",
-       params={"self": "TemplateLookup", "uri": "Str"}, returns="Template",
+ASSUME("mako.lookup:TemplateCollection.get_template",
+       params={"self": "LookupAPI", "uri": "Str"}, returns="Template",
        ensures=[("def", "same(result, looked_up(self, uri))")],
        raises={"TopLevelLookupException": {}, "TemplateLookupException": {}, "*": {}},
-       note="verified separately (C09/C14); compile errors of the target propagate")
+       note="interface view used by the runtime (names the returned template); TemplateLookup.get_template itself is verified (C09/C14)")
 
 C("mako.runtime:_lookup_template",
   params={"context": "Context", "uri": "Str", "relativeto": "Opt[Str]"}, returns="Template",
